@@ -382,7 +382,7 @@ struct ChunkPos { std::string id ; size_t hdr ; size_t data ; uint64_t size ; } 
 inline std::vector<ChunkPos> walk_iff (const std::vector<uint8_t> &d)
 {	std::vector<ChunkPos> v ;
 	if (d.size () < 12) return v ;
-	bool be = memcmp (d.data (), "FORM", 4) == 0 ;
+	bool be = memcmp (d.data (), "FORM", 4) == 0 || memcmp (d.data (), "RIFX", 4) == 0 ;
 	size_t off = 12 ;
 	while (off + 8 <= d.size ())
 	{	ChunkPos c ; c.id.assign ((const char *) d.data () + off, 4) ; c.hdr = off ; c.data = off + 8 ;
@@ -395,9 +395,11 @@ inline std::vector<ChunkPos> walk_iff (const std::vector<uint8_t> &d)
 }
 // samples-per-block written in the fmt chunk of a WAV / WAVEX / RF64 / W64 ADPCM file (0 if not found)
 inline int adpcm_samples_per_block (const std::vector<uint8_t> &d)
-{	if (d.size () > 12 && (memcmp (d.data (), "RIFF", 4) == 0 || memcmp (d.data (), "RF64", 4) == 0))
-	{	for (auto &c : walk_iff (d))
-			if (c.id == "fmt " && c.size >= 20 && c.data + 20 <= d.size ()) return rd_le16 (d.data () + c.data + 18) ;
+{	if (d.size () > 12 && (memcmp (d.data (), "RIFF", 4) == 0 || memcmp (d.data (), "RF64", 4) == 0 || memcmp (d.data (), "RIFX", 4) == 0))
+	{	bool be = d [3] == 'X' ;
+		for (auto &c : walk_iff (d))
+			if (c.id == "fmt " && c.size >= 20 && c.data + 20 <= d.size ())
+			{	const uint8_t *q = d.data () + c.data + 18 ; return be ? (q [0] << 8 | q [1]) : rd_le16 (q) ; }
 		return 0 ;
 	}
 	if (d.size () > 40 && memcmp (d.data (), "riff", 4) == 0)
